@@ -109,7 +109,7 @@ def describe(rep):
         'L2: the same real run on concolic IEEE doubles (concrete seed steers, FloatingPoint terms collected); one QF_FP query per seed '
         'path asks for inputs on that path where the run takes N steps although N-1 exact steps already reach Tend (binary128 exact sum).'
     )
-    rep.rule = 'state = explored path (block/step pattern) of the real run loop; transition = branch decision; all paths are real executions'
+    rep.rule = 'state = explored path (block/step pattern) of the real run loop; transition = branch decision; all paths are real executions; chaining inside a block additionally on the block explorations of C07 (every convergence pattern, all_to_done included)'
     rep.assume('probe sweeper honours the direct-solver contract (residual 0 iff nodes were computed for the current u[0])',
                'layer 1/2: fixed step size; restart histories (with and without halving of the step size) are explored with the C09 machinery and judged for tiling / chaining / reaching Tend', 'L1 is exact real arithmetic; rounding of time accumulation is only treated in L2',
                'L2 ranges: 0 <= t0 <= 2^20, 2^-10 <= dt <= 2^10; L2 is a counterexample finder with replay, not a proof')
